@@ -383,7 +383,10 @@ CLAIMS = {
     note="Proved: the theorems above about the Lean model. Validated only (differential, not proved): that the model equals the Rust parser "
          "and lowering; integer/float literal values (no Lean theorem: the value is computed by Rust's str::parse, the harness compares with "
          "an independently computed expectation); items, patterns and types are not in the OPERATOR-tree generator (they are in the round-11 "
-         "program generator of the lowering tie); NOT proved: "
+         "program generator of the lowering tie); lower_parse_print_ops / lower_parse_print_ops_tree: on the image of Pratt.Cst restricted to operator trees (identifiers, integers, "
+         "parentheses, both prefix and all twelve binary operators; no call, no `.`) Model/Lower.lean computes what Pratt.lower computes, so parse_print "
+         "holds for the lowering model that is tied to ast::lower, under the decidable side condition fits (no variable spelled like a constructor). "
+         "NOT proved: the postfix group of lower_parse_print (calls, fields, projections, then constructors / all literal kinds / paths as atoms), "
          "lower_parse_print beyond operator trees, "
          "sufficiency of the model's fuel, source ranges of lowering diagnostics (not modelled). "
          "Trusted: Lean kernel, tools/extract.py regexes, harness AST dump and trivia insertion, the real lexer (C12) for token boundaries.",
